@@ -156,10 +156,23 @@ class Generator:
                 raise LostAnchor("cannot lex %s: %s" % (rel, e))
         return self._files[rel]
 
+    def _read_with_includes(self, path, depth):
+        if depth > 8:
+            raise TemplateError("include depth")
+        out = []
+        for ln in open(path, encoding="utf-8").read().split("\n"):
+            s = ln.strip()
+            if s.startswith("//@include "):
+                inc = os.path.join(os.path.dirname(os.path.abspath(path)), s[len("//@include "):].strip())
+                out += self._read_with_includes(inc, depth + 1)
+            else:
+                out.append(ln)
+        return out
+
     # ------------------------------------------------------------------
     def generate(self, template_path, unit_name):
         u = Unit(unit_name)
-        lines = open(template_path, encoding="utf-8").read().split("\n")
+        lines = self._read_with_includes(template_path, 0)
         out = []
         i = 0
         cur_fn = None
